@@ -169,7 +169,8 @@ impl Sink {
         self.stats.steps += 1;
         let name = match &o.line.op {
             Op::New { .. } => "new",
-            Op::Clone { .. } => "clone",
+            Op::Clone { from: false, .. } => "clone",
+            Op::Clone { from: true, .. } => "clonefrom",
             Op::Drop { .. } => "drop",
             Op::On { op, .. } => op.name(),
         };
@@ -340,7 +341,10 @@ impl Sink {
             for f in fails {
                 match f.prop {
                     "C06" | "C07" | "C16" => kept.push(monitors::Fail { prop: "C16", msg: f.msg }),
-                    "C02" if f.msg.contains("recorded sizes") => kept.push(monitors::Fail { prop: "C16", msg: f.msg }),
+                    "C02" if f.msg.contains("recorded sizes") => {
+                        kept.push(monitors::Fail { prop: "C02", msg: f.msg.clone() });
+                        kept.push(monitors::Fail { prop: "C16", msg: f.msg });
+                    }
                     _ => {}
                 }
             }
@@ -472,7 +476,13 @@ fn random_seq(sink: &mut Sink, rng: &mut Rng, prof: &Profile, hkind: HKind) {
             Some(s) => s.clone(),
             None => break,
         };
-        let op = g.next_op(c, &snap, w.caches.len());
+        let mut op = g.next_op(c, &snap, w.caches.len());
+        // `d.clone_from(&c)` into another live cache, now and then
+        if live.len() >= 2 && prof.max_caches > 1 && g.rng.chance(1, 12) {
+            let others: Vec<usize> = live.iter().copied().filter(|x| *x != c).collect();
+            let d = others[g.rng.below(others.len() as u64) as usize];
+            op = Op::Clone { c, d, base: types::peek_next_tok(), from: true };
+        }
         // in light mode observe fully now and then
         let full = prof.full || i % 97 == 96;
         let mut line = gen::mk_line(full, op);
@@ -671,7 +681,7 @@ fn tombstones(sink: &mut Sink, rng: &mut Rng, shard: (u64, u64)) {
                 continue;
             }
             for fin in 0..9usize {
-                for hk in [HKind::Ident, HKind::Mix] {
+                for hk in [HKind::Ident, HKind::Mix, HKind::Const] {
                     idx += 1;
                     if idx % shard.1 != shard.0 {
                         continue;
@@ -711,6 +721,17 @@ fn tombstones(sink: &mut Sink, rng: &mut Rng, shard: (u64, u64)) {
                     // and one more insertion afterwards
                     let kt = types::peek_next_tok();
                     sink.step(&mut w, &gen::mk_line(true, Op::On { c: 0, op: OpKind::Ins { id: fresh + 1, kh: 0, kt, vh: 0, vt: kt + 1 } }));
+                    // then promotions of surviving entries and their neighbours (a link that went
+                    // stale in a table rebuild shows in the order only after such accesses)
+                    for t in 0..8u32 {
+                        let live: Vec<u32> = w.snap(0).map(|s| s.ord.iter().map(|e| e.k.id).collect()).unwrap_or_default();
+                        if live.is_empty() {
+                            break;
+                        }
+                        let id = live[rng.below(live.len() as u64) as usize];
+                        let op = match t % 4 { 0 => OpKind::Get(id), 1 => OpKind::Touch(id), 2 => OpKind::GetLru, _ => OpKind::GetE(id) };
+                        sink.step(&mut w, &gen::mk_line(true, Op::On { c: 0, op }));
+                    }
                     sink.end_seq(w);
                 }
             }
@@ -797,7 +818,7 @@ fn panic_systematic(sink: &mut Sink, rng: &mut Rng, shard: (u64, u64), rounds: u
                     let mut w = sink.begin_seq(HKind::Mix, "panic-clone");
                     setup_entries(sink, &mut w, n, usize::MAX / 2, None);
                     let base = types::peek_next_tok();
-                    let mut line = gen::mk_line(true, Op::Clone { c: 0, d: 1, base });
+                    let mut line = gen::mk_line(true, Op::Clone { c: 0, d: 1, base, from: false });
                     line.panic_at = Some((kind, nth));
                     sink.step(&mut w, &line);
                     sink.step(&mut w, &gen::mk_line(true, Op::On { c: 0, op: OpKind::Nop }));
